@@ -250,6 +250,7 @@ Proof.
     eapply exec_op_g; eauto.
   - apply andb_prop in FR. destruct FR as [HM HD]. eapply exec_mod_g; eauto.
   - apply andb_prop in FR. destruct FR as [NP NQ]. eapply exec_swap_g; eauto.
+  - discriminate.
 Qed.
 
 (* ------------------------------------------------------------------ a loop body *)
